@@ -136,6 +136,30 @@ func (e *SEnv) expandPred(p *PredSpec, sx *SX, label string) []part {
 	return out
 }
 
+// closedMapFacts adds facts about map m that do not depend on bound variables: a nil map
+// is empty, stored integer values are well typed.
+func (e *SEnv) closedMapFacts(m Val) {
+	x := e.x
+	if strings.Contains(m.T, "q_") || m.T == "0" {
+		return
+	}
+	st := e.factSt
+	if st == nil {
+		st = e.st
+	}
+	d, vv, vs, vt := x.mapParts(e.st, m)
+	f := []string{fmt.Sprintf("(forall ((k Int)) (! (not (select %s k)) :pattern ((select %s k))))", d, d)}
+	if vs == "Int" {
+		f = append(f, app("=", app("msum", d, vv), "0"))
+	}
+	st.assume(implies(app("=", m.T, "0"), and(f...)))
+	if vt != nil {
+		if _, _, ok := intRange(vt); ok {
+			st.assume(fmt.Sprintf("(forall ((k Int)) (! (=> (select %s k) %s) :pattern ((select %s k))))", d, inRange(app("select", vv, "k"), vt), vv))
+		}
+	}
+}
+
 func (e *SEnv) evalBool(sx *SX) string {
 	v := e.eval(sx)
 	if v.S != "Bool" {
@@ -170,15 +194,7 @@ func (e *SEnv) eval(sx *SX) Val {
 			return v
 		case base.G != nil && mapValType(base.G) != nil:
 			v, _ := x.mapRead(e.stForFacts(), base, i.T)
-			if e.factSt != nil && !strings.Contains(base.T, "q_") {
-				// stored values are well typed: a closed, quantified fact for reads under binders
-				if vt := mapValType(base.G); vt != nil {
-					if _, _, ok := intRange(vt); ok {
-						d, vv, _, _ := x.mapParts(e.factSt, base)
-						e.factSt.assume(fmt.Sprintf("(forall ((k Int)) (! (=> (select %s k) %s) :pattern ((select %s k))))", d, inRange(app("select", vv, "k"), vt), vv))
-					}
-				}
-			}
+			e.closedMapFacts(base)
 			return v
 		case strings.HasPrefix(base.S, "(Array Int "):
 			return Val{T: app("select", base.T, i.T), S: arrayElem(base.S)}
@@ -493,7 +509,16 @@ func (e *SEnv) evalCallSX(sx *SX) Val {
 		if e.own {
 			sub.entryParams = false
 		}
-		return sub.eval(sx.Args[0])
+		n0 := len(e.old.pc)
+		v := sub.eval(sx.Args[0])
+		// facts about the pre-state heap generated during the evaluation belong to the current path
+		if len(e.bound) == 0 {
+			for _, f := range e.old.pc[n0:] {
+				e.st.assume(f)
+			}
+		}
+		e.old.pc = e.old.pc[:n0:n0]
+		return v
 	case "oldat":
 		// oldat(s, i): element i (current value of i) of slice s as it was in the pre-state
 		if !argn(2) {
@@ -555,6 +580,7 @@ func (e *SEnv) evalCallSX(sx *SX) Val {
 		m := e.eval(sx.Args[0])
 		k := e.eval(sx.Args[1])
 		d, _, _, _ := x.mapParts(e.st, m)
+		e.closedMapFacts(m)
 		return Val{T: app("select", d, k.T), S: "Bool"}
 	case "domset":
 		if !argn(1) {
@@ -562,6 +588,7 @@ func (e *SEnv) evalCallSX(sx *SX) Val {
 		}
 		m := e.eval(sx.Args[0])
 		d, _, _, _ := x.mapParts(e.st, m)
+		e.closedMapFacts(m)
 		return Val{T: d, S: "(Array Int Bool)"}
 	case "ite":
 		if !argn(3) {
